@@ -13,6 +13,8 @@ NA = {
  "C16": "decision lives in methods of ContentPackCreator which cannot be constructed without spawning threads; detect branch is floating point; dedup adder is HashMap<blake3::Hash,_> (DESIGN.md section 5)",
 }
 TEXT = {
+ "C10": ("Bounded model checking of the real container writer and of the pieces the one-file/many-files equivalence rests on: the real ContainerPackCreator (from_file, add_pack, into_file + InContainerFile write/seek/close, finalize) run inside Kani on a memory recipient with symbolic pack bytes and free data: the declared size equals the bytes written, the tail mirrors the header block, every locator (uuid, size, offset) delimits exactly the bytes of its pack and positions inside a contained pack are relative to its start; the real ChainedLocator over three locators with symbolic answers (first hit wins, errors propagate); Skip offset arithmetic; the real blind open's control flow for the header-at-start branch and the real ContainerPackHeader/PackLocator readers (shared with C06/C14).",
+         "4 C10", "Kani/CBMC; 2 packs, 5 pack bytes; Uuid::new_v4 fixed; Serializer::close without CRC; Container::new / get_pack (HashMap, file locators), the order in which Container builds its locator chain, the mirrored-tail branch of the blind open and the file-system locator are outside: no claim is made about them"),
  "C04": ("Bounded model checking of which bytes are hashed and compared: one inductive step of the real ManifestCheckStream from any state (masked exactly on bytes 38..256 of each pack-info block, nothing else altered, in step with its source), its set-up from the real PackOffsetsIter, the real CheckInfo::{new_blake3,check} with blake3 replaced by a tap + stand-in digest, and the real Pack::check of DirectoryPack, ManifestPack and ContentPack on pack states built over a symbolic body: the stream fed to the hash is exactly [0, check_info_pos), a pristine pack verifies, any single altered byte of the body or of the stored digest does not. A check that hashes a shorter range or compares nothing passes the test suite and fails here.",
          "4 C04", "Kani/CBMC; blake3 is abstracted (tap + additive digest, collision resistance assumed); pack states are built by struct literal; O-crc accepts; the writers' side (hash computed after the header rewrite), ContentPackCreator (threads) and Container::check (HashMap) are outside"),
  "C12": ("Bounded model checking of the pack-info block a location rewrite replaces: the real PackInfo::serialize writes 38 location-independent bytes then the length-prefixed location zero-padded to 252 bytes for locations of 0..213 bytes; the real PackInfo::parse recovers every field and consumes exactly 252 bytes whatever the location (2-byte locations range over all byte pairs: multi-byte UTF-8 accepted, invalid UTF-8 rejected); the real manifest check stream masks exactly bytes 38..256 of each block (shared with C04). Together: two manifests that differ only by a rewritten location feed identical bytes to the global check.",
